@@ -170,6 +170,9 @@ func (t *Teamserver) ListenerRemove(Name string) ([]*Listener, []packager.Packag
 
 			// no add event of this listener is replayed to new clients any more (there can be
 			// more than one: the operator's request and the teamserver's own event)
+			t.EventsListMtx.Lock()
+			defer t.EventsListMtx.Unlock()
+
 			var kept []packager.Package
 			for EventID := range t.EventsList {
 				if t.EventsList[EventID].Head.Event == packager.Type.Listener.Type {
